@@ -81,3 +81,31 @@ Print Assumptions exp_decay_range.
 Print Assumptions exp_decay_monotone.
 Print Assumptions exp_decay_step0.
 Print Assumptions exp_decay_errors.
+
+(* ---- the IEEE-754 binary64 reading (exp_decay_f, bit-for-bit what the code computes; Proofs/SchedFloatP.v,
+   through Flocq's specification of Coq's primitive floats): for every finite cap and every step below 2^63 ---- *)
+From Coq Require Import Reals.
+From KV Require Import Proofs.SchedFloatP.
+Local Open Scope R_scope.
+
+(* the value is min(a(k), cap) of correctly rounded a(k) = fl(1 - fl(1 / fl(max k 1))), lies in [0, cap], is finite *)
+Theorem exp_decay_float_range : forall cap k v, fin cap -> (Z.of_nat (Nat.max k 1) < 2 ^ 63)%Z ->
+  exp_decay_f cap k = Some v -> fin v /\ (0 <= RF v <= RF cap)%R /\ (0 < RF cap)%R.
+Proof.
+  intros cap k v Fc Hk E. destruct (exp_decay_f_value cap k v Fc Hk E) as (Hc & Fv & _).
+  split; [exact Fv|]. split; [exact (exp_decay_f_range_l cap k v Fc Hk E)|exact Hc].
+Qed.
+
+(* non-decreasing in the step, as real numbers and under the float comparison itself *)
+Theorem exp_decay_float_monotone : forall cap k a b, fin cap -> (Z.of_nat (S k) < 2 ^ 63)%Z ->
+  exp_decay_f cap k = Some a -> exp_decay_f cap (S k) = Some b ->
+  (RF a <= RF b)%R /\ PrimFloat.leb a b = true.
+Proof. exact exp_decay_f_monotone_l. Qed.
+
+(* steps 0 and 1 give exactly zero *)
+Theorem exp_decay_float_step01 : forall cap v k, (k <= 1)%nat -> fin cap -> exp_decay_f cap k = Some v -> RF v = 0%R.
+Proof. exact exp_decay_f_step01. Qed.
+
+Print Assumptions exp_decay_float_range.
+Print Assumptions exp_decay_float_monotone.
+Print Assumptions exp_decay_float_step01.
